@@ -1083,7 +1083,7 @@ def wave_hyps(ck, case):
     tags = []
     t = common.allcirc_hyp(ck, parse_circuit(case), [case['strip']], 'C14 sdf-wave')
     tags.append('hyp:sdfwave:net:' + t.split(':', 1)[1])
-    if t == 'allcirc-hyp:outside':
+    if t == 'allcirc-hyp:outside' or t.startswith('allcirc-hyp:not-evaluated'):
         ck.broken_tie('hypotheses forksOKB / readsDrivenB of the C14Wave theorems on a generated sdf-wave case', t, inp=case)
     try:
         ans = common.run_driver([f"sdfwavehyp {pct(case['sdf'])}"])[0]
